@@ -8,7 +8,7 @@
  "no_body_deny_re": "^(janet_symbol|janet_symcache|janet_cache_resize|janet_string_equalconst)",
  "cases_py": "symcache_step_cases.py",
  "functions_encoded": ["symcache.c: janet_symbol, janet_symcache_findmem, janet_symcache_put, janet_symbol_deinit (janet_cache_resize when the load threshold is hit)", "string.c: janet_string_equalconst"],
- "asserted": ["V4 (inductive step): from any symbol-cache state satisfying the invariant (every live symbol reachable from its home slot without crossing an empty slot, no two live symbols with equal bytes, counters exact), interning bytes that equal a live symbol returns THAT symbol (same pointer), interning new bytes adds exactly one symbol, removing a symbol makes it unfindable; afterwards the invariant holds again — so symbols/keywords with the same bytes are always identical"],
+ "asserted": ["V4 (inductive step): from any symbol-cache state satisfying the invariant (every live symbol reachable from its home slot without crossing an empty slot, no two live symbols with equal bytes, live counter exact, tombstone counter an upper bound), interning bytes that equal a live symbol returns THAT symbol (same pointer), interning new bytes adds exactly one symbol, removing a symbol makes it unfindable; afterwards the invariant holds again — so symbols/keywords with the same bytes are always identical"],
  "bounds": ["capacity 8; occupancy enumerated over the 4 slots around the wrap boundary (6,7,0,1) with <= 3 non-empty slots; home slot of every symbol and of the looked-up bytes concrete per case (all reachability-consistent choices within the cluster); symbol bytes (1 byte each) symbolic"],
  "stubs": ["janet_string_calchash as called from symcache.c = arbitrary function of the bytes with the case's home slots (hash abstraction, see E19)", "janet_gcalloc = malloc", "janet_panic family = end of path"],
  "outside_claim": ["cache resize beyond one doubling", "gensym", "longer symbols (the hash/equality of bytes is C03 value_laws)"]
@@ -63,7 +63,7 @@ static void check_invariant(void) {
         }
     }
     VF_ASSERT(janet_vm.cache_count == live, "cache_count differs from the number of live symbols");
-    VF_ASSERT(janet_vm.cache_deleted == dead, "cache_deleted differs from the number of tombstones");
+    VF_ASSERT(janet_vm.cache_deleted >= dead, "cache_deleted undercounts the tombstones (the load check would let the cache fill up)");   /* reusing a tombstone does not decrement the counter: it is an upper bound, reset by resize */
 }
 
 void harness(void) {
